@@ -89,6 +89,47 @@ pub fn mul_bound_ok(r: &TwoFloat, x: &TwoFloat, yh: f64, yl: f64, num: u64) -> b
 #[derive(Clone, Copy, PartialEq)]
 pub enum F { Op, Assign }
 
+// ---- witness search / bounded stand-in for the product bounds: domain B(12) (12-bit significands, high words
+// in [2^-30, 2^30], low words 0 or >= 2^-90): every partial product is then exact in f64 and the exact product
+// is their sum in a 512-bit window with unit 2^-260
+use super::c03::{bhi, short_k, BK};
+use super::spec::win::Y;
+pub const ANCH_M: i32 = 1075 - 260;
+pub fn blo_m(x: f64) -> bool { short_k(x, BK) && (x == 0.0 || x.abs() >= 8.077935669463161e-28) }
+pub fn mul_bound_win(r: &TwoFloat, parts: [f64; 4], num: u64) -> bool {
+    let mut e = Y::zero();
+    let mut i = 0;
+    while i < 4 { match Y::at(parts[i], ANCH_M, 330) { Some(v) => { e = e.add(v); } None => return false } i += 1; }
+    match (Y::at(r.hi, ANCH_M, 330), Y::at(r.lo, ANCH_M, 330)) {
+        (Some(zh), Some(zl)) => zh.add(zl).sub(e).abs().shl(106).le(e.abs().mul_small(num)),
+        _ => false,
+    }
+}
+fn bound_mul_f64_case(f64_left: bool, form: F) {
+    let x = any_valid(); let y = any_f64!();
+    vassume!(bhi(x.hi) && blo_m(x.lo) && bhi(y));
+    let r = match (f64_left, form) {
+        (false, F::Op) => &x * &y,
+        (true, _) => &y * &x,
+        (false, F::Assign) => { let mut t = x; t *= &y; t }
+    };
+    #[cfg(kani)]
+    { vassert!(valid(r.hi, r.lo) && mul_bound_win(&r, [x.hi * y, x.lo * y, 0.0, 0.0], 2), "TwoFloat * f64 valid and within 2 * 2^-106 of the exact product"); }
+    #[cfg(not(kani))]
+    { vassert!(valid(r.hi, r.lo) && mul_bound_ok(&r, &x, y, 0.0, 2), "TwoFloat * f64 valid and within 2 * 2^-106 of the exact product"); }
+    vcover!(x.lo != 0.0 && r.lo != 0.0, "non-trivial operands reachable");
+}
+fn bound_mul_tf_case(form: F) {
+    let x = any_valid(); let y = any_valid();
+    vassume!(bhi(x.hi) && blo_m(x.lo) && bhi(y.hi) && blo_m(y.lo));
+    let r = match form { F::Op => &x * &y, F::Assign => { let mut t = x; t *= &y; t } };
+    #[cfg(kani)]
+    { vassert!(valid(r.hi, r.lo) && mul_bound_win(&r, [x.hi * y.hi, x.hi * y.lo, x.lo * y.hi, x.lo * y.lo], 5), "TwoFloat * TwoFloat valid and within 5 * 2^-106 of the exact product"); }
+    #[cfg(not(kani))]
+    { vassert!(valid(r.hi, r.lo) && mul_bound_ok(&r, &x, y.hi, y.lo, 5), "TwoFloat * TwoFloat valid and within 5 * 2^-106 of the exact product"); }
+    vcover!(x.lo != 0.0 && y.lo != 0.0 && r.lo != 0.0, "non-trivial operands reachable");
+}
+
 pub fn mul_f64_case(f64_left: bool, form: F) {
     let x = any_tf(); let y = any_f64!();
     #[cfg(not(kani))]
@@ -138,6 +179,12 @@ harnesses! {
     #[kani::solver(cvc5)] fn alg9_mul_assign_f64() { mul_f64_case(false, F::Assign) }
     #[kani::solver(cvc5)] fn alg12_mul_tf_tf() { mul_tf_case(F::Op) }
     #[kani::solver(cvc5)] fn alg12_mul_assign_tf() { mul_tf_case(F::Assign) }
+    // witness search / bounded stand-ins B(12): the product bound itself on the real operators
+    #[kani::solver(kissat)] #[kani::unwind(70)] fn bound_mul_tf_f64() { bound_mul_f64_case(false, F::Op) }
+    #[kani::solver(kissat)] #[kani::unwind(70)] fn bound_mul_f64_tf() { bound_mul_f64_case(true, F::Op) }
+    #[kani::solver(kissat)] #[kani::unwind(70)] fn bound_mul_assign_f64() { bound_mul_f64_case(false, F::Assign) }
+    #[kani::solver(kissat)] #[kani::unwind(70)] fn bound_mul_tf_tf() { bound_mul_tf_case(F::Op) }
+    #[kani::solver(kissat)] #[kani::unwind(70)] fn bound_mul_assign_tf() { bound_mul_tf_case(F::Assign) }
     #[kani::solver(cvc5)] fn alg15_div_tf_f64() { div_f64_case(F::Op) }
     #[kani::solver(cvc5)] fn alg15_div_assign_f64() { div_f64_case(F::Assign) }
     /// new_div(a, b) is Algorithm 15 with a zero low word
